@@ -1,6 +1,7 @@
 """C14 - fact lookups do not depend on how the index was built."""
 from .. import facts as F
 from .. import flow
+from ..absint import core
 from .common import census, anchor, const_str_args, const_int_args
 
 LEVEL = "other"
@@ -41,12 +42,25 @@ def r2_tokenizer(facts, rep):
     schema = anchor(rep, "C14-R2", facts, "db::build_schema")
     if body is None or schema is None:
         return
-    cfg = body.cfg
-    regs = flow.calls_named(body, lambda n: n == "tantivy::tokenizer::TokenizerManager::register")
-    rep.floor("C14-R2", "tokenizer registrations in open_inner", len(regs), 1)
+    # the name the tokenizer is registered under: from the session summaries of open_inner (helpers followed); that the
+    # registration comes before any writer / load / Ok(db) on every path is C14-R5's effect order
+    from . import c15
     reg_names = set()
-    for bid, t, sp, name in regs:
-        reg_names |= set(const_str_args(t, body, facts))
+    n_reg = 0
+    for in_memory in (True, False):
+        try:
+            dom_, it_, body_, outs_ = c15.open_inner_summary(facts, in_memory)
+        except core.Undecided as e:
+            rep.ob("C14-R2", "tokenizer-name-agreement", False, "undecided: %s" % e, body.site())
+            return
+        for o in outs_:
+            for e in dom_.log(o.store):
+                if e[0] == "register":
+                    n_reg += 1
+                    for v in e[1:]:
+                        if isinstance(v, core.Const) and isinstance(v.v, str):
+                            reg_names.add(v.v)
+    rep.floor("C14-R2", "tokenizer registrations in open_inner", n_reg, 1)
     sets = flow.calls_named(schema, lambda n: n.endswith("TextFieldIndexing::set_tokenizer"))
     set_names = set()
     for bid, t, sp, name in sets:
@@ -55,24 +69,6 @@ def r2_tokenizer(facts, rep):
     rep.ob("C14-R2", "tokenizer-name-agreement", bool(reg_names) and reg_names == set_names,
            "tokenizer registered as %s, schema indexes with %s" % (sorted(reg_names), sorted(set_names)),
            body.site(), sample={"registered": sorted(reg_names), "schema": sorted(set_names)})
-    # registration dominates every use
-    uses = flow.calls_named(body, lambda n: n.startswith("tantivy::Index::writer") or n.startswith("tantivy::IndexWriter::")
-                            or n == "db::Db::load_bytes" or n.startswith("tantivy::IndexReader::"))
-    for rb, rt, rsp, _ in regs[:1]:
-        for bid, t, sp, name in uses:
-            rep.ob("C14-R2", "register-before:%s" % name, cfg.dominates(rb, bid),
-                   "%s is %sdominated by the tokenizer registration" % (name, "" if cfg.dominates(rb, bid) else "NOT "),
-                   body.site(sp))
-        # every Ok(..) assigned to the return place is dominated as well
-        n_ok = 0
-        for b, i, s in body.stmts():
-            rv = s["rv"]
-            if s["place"]["local"] == 0 and rv["k"] == "aggregate" and rv["kind"].get("variant") == "Ok":
-                n_ok += 1
-                rep.ob("C14-R2", "register-before:Ok(db)#%d" % n_ok, cfg.dominates(rb, b["id"]),
-                       "the Ok(db) return is %sdominated by the tokenizer registration" % (
-                           "" if cfg.dominates(rb, b["id"]) else "NOT "), body.site(s["span"]))
-        rep.floor("C14-R2", "Ok returns of open_inner", n_ok, 1)
     # both creation paths take their schema from build_schema()
     for cname in ("tantivy::Index::create_in_ram", "tantivy::Index::create_in_dir"):
         sites = census(facts, lambda n, c=cname: n == c)
@@ -124,28 +120,14 @@ def r2_tokenizer(facts, rep):
            sample={"binding": assign})
     # use sites
     lb = anchor(rep, "C14-R2", facts, "db::Db::load_bytes")
-    lk = anchor(rep, "C14-R2", facts, "db::Db::lookup")
-    if lk is not None:
-        reads = {}
-        for b, i, s in lk.stmts():
-            rv = s["rv"]
-            if rv["k"] == "use" and rv["op"]["k"] in ("copy", "move") and rv["op"]["place"]["local"] == 1:
-                fs = F.place_fields(rv["op"]["place"])
-                if fs and fs[-1] in ("field_name", "field_data"):
-                    reads.setdefault(fs[-1], []).append(s["place"]["local"])
-        gf = flow.calls_named(lk, lambda n: n == "tantivy::Document::get_first")
-        data_ok = bool(gf)
-        for bid, t, sp, name in gf:
-            ls = flow.slice_back(lk, t["args"][1])
-            fields = {l[2] for l in ls if l[0] == "param" and l[1] == 1}
-            if fields != {("field_data",)}:
-                data_ok = False
-        qp = flow.calls_named(lk, lambda n: n == "tantivy::query::QueryParser::for_index")
-        rep.ob("C14-R2", "lookup:fields", data_ok and len(reads.get("field_name", [])) >= 1 and len(qp) >= 1
-               and len(reads.get("field_data", [])) == len(gf),
-               "lookup builds its query parser with self.field_name (%d read(s)) and reads the payload with "
-               "self.field_data (%d read(s), %d get_first call(s))" % (
-                   len(reads.get("field_name", [])), len(reads.get("field_data", [])), len(gf)), lk.site())
+    # use sites: lookup reads the index through the text field and the payload through the bytes field (effect summary of
+    # Db::lookup, helpers followed - shared with C16-R2)
+    from . import c16
+    s2 = type(rep)(rep.prop, rep.tier)
+    c16.r2_lookup(facts, s2, rule="C14-R2")
+    for o in s2.obls:
+        o["key"] = "lookup:fields" if o["key"] == "lookup" else o["key"]
+        rep.obls.append(o)
 
 
 def r3_loop(facts, rep):
